@@ -566,12 +566,17 @@ impl Element {
                             if i > 0 {
                                 write!(w, ",")?;
                             }
-                            write!(
-                                w,
-                                "{}:{}",
-                                gen_lit_str(&attr.name.name),
-                                gen_lit_str(&attr.value.name)
-                            )?;
+                            if attr.name.name.as_str() == "__proto__" {
+                                // (an entry of the object, not its prototype)
+                                write!(w, "[\"__proto__\"]:{}", gen_lit_str(&attr.value.name))?;
+                            } else {
+                                write!(
+                                    w,
+                                    "{}:{}",
+                                    gen_lit_str(&attr.name.name),
+                                    gen_lit_str(&attr.value.name)
+                                )?;
+                            }
                         }
                     }
                     write!(w, "}},")?;
